@@ -118,11 +118,16 @@ Explains(DS, row, c) ==
   LET D == DS[row.doc] IN
   \/ InChan(D, c) /\ row.tok.s = D.seq
   \/ c # Star /\ c \in DOMAIN D.rem /\ D.rem[c] # None /\ D.rem[c].seq = row.tok.s
-(* nothing that belongs only to channels the requester cannot see *)
-Sound(DS, VC, R) ==
+(* nothing that belongs only to channels the requester cannot see: a row after position S is justified only if, after S,
+   the document changed while in a visible channel (its current revision, at its current sequence) or LEFT a visible
+   channel (at exactly the sequence at which it left - a removal notice carries that sequence and names that channel) *)
+Sound(DS, VC, R, S) ==
   \A i \in 1..Len(R) : /\ R[i].doc \in DOMAIN DS
+                       /\ R[i].tok.s > S
                        /\ \E c \in VC : Explains(DS, R[i], c)
                        /\ R[i].removed \subseteq VC
+                       /\ \A c \in R[i].removed : LET D == DS[R[i].doc] IN
+                            c \in DOMAIN D.rem /\ D.rem[c] # None /\ D.rem[c].seq = R[i].tok.s
 (* what the answer covers: everything after the position when it was not cut by a limit, else up to its last row *)
 Cut(R, lim) == IF lim > 0 /\ Len(R) >= lim THEN R[Len(R)].tok.s ELSE -1
 Within(n, S, cut) == n > S /\ (cut = -1 \/ n <= cut)
@@ -162,10 +167,10 @@ OracleAdmitsReference ==
   \A u \in Requesters, req \in ReqSets, ao \in BOOLEAN :
     LET VC == VisChans(grants, u, req)
         B  == RefFeed(docs, VC, 0, 0, ao) IN
-    /\ Sound(docs, VC, B) /\ Ordered(B)
+    /\ Sound(docs, VC, B, 0) /\ Ordered(B)
     /\ \A S \in Sinces :
          LET R == RefFeed(docs, VC, S, 0, ao) IN
-         /\ SuffixOfBase(B, R, S)
+         /\ SuffixOfBase(B, R, S) /\ Sound(docs, VC, R, S)
          /\ CompleteCur(docs, VC, R, S, 0, ao) /\ RemovalNoticed(docs, VC, R, S, 0, ao)
          /\ \A k \in Lims \ {0} :
               LET L == RefFeed(docs, VC, S, k, ao) IN
